@@ -291,7 +291,7 @@ both!(u8_typeconfusion_arb, u8_typeconfusion_rand, 14, |src| {
         assert!(!rep.is_empty(), "[C04] replacement must be one complete opcode");
         let second = if rep.len() > 1 { Some(rep[1]) } else { None };
         let want = replacement_len(rep[0], second);
-        assert!(want == Some(rep.len()), "[C04] replacement must be exactly one complete value-pushing opcode");
+        assert!(want == Some(rep.len()), "[C04] [C16] replacement must be exactly one complete value-pushing opcode");
         assert!(class_of(rep[0]) != 0 && class_of(rep[0]) != class_of(del[0]), "[C16] replacement must push a different kind");
         assert!(rep[0] != 0x82 && rep[0] != 0x83 && rep[0] != 0x84 && rep[0] != 0x97 && rep[0] != 0x98 && rep[0] != 0x95,
             "[C10] replacement must not be an EXT/buffer/FRAME opcode");
